@@ -64,6 +64,7 @@ def floors(acc, tier):
     _w.need(acc, msgs, "c13_precondition_met", 1500)
     for h in (1, 2, 3, 4):
         _w.need(acc, msgs, "routes_ok_%dhop" % h, 40)
+    _w.need(acc, msgs, "routes_ok_revisiting_final_asset", 5)
     for bm in ("empty", "dangling", "merge"):
         if not any(("|" + bm + "|") in k for k in acc.classes):
             msgs.append("bad route shape %s never attempted" % bm)
